@@ -7,25 +7,25 @@ _TB = ("Trusted base: clang 14 front end (AST, CFG, constant evaluator), the pyt
 
 CLAIMS = {
     "C01": {
-        "text": "Decides the table/database/dispatch clauses only: every entry of the encoder's constant lookup tables equals an independent oracle (exhaustive, 1237 entries), every instruction row's main/alt opcode (prefix, map, byte, /digit) occurs in a db/isa_x86.json form of the mnemonic (1769 cells), every encoding class has a dispatch case, FIXUP_GPB constants, pc-relative displacements account for the trailing immediate and take the current position from the writer cursor, REX is the last prefix and FWAIT precedes the overrides on every path, register ids are not compared before FIXUP_GPB, packed ModRM fields are not tested after a merge, generated tables regenerate identically (thorough).; invalid-marker entries of the 16-bit addressing tables are tested before use; operands are reinterpreted only as the kind the dominating test established Does not decide ModRM/immediate arithmetic over operand values.",
+        "text": "Decides the table/database/dispatch clauses only: every entry of the encoder's constant lookup tables equals an independent oracle (exhaustive, 1237 entries), every instruction row's main/alt opcode (prefix, map, byte, /digit) occurs in a db/isa_x86.json form of the mnemonic (1769 cells), every encoding class has a dispatch case, FIXUP_GPB constants, pc-relative displacements account for the trailing immediate and take the current position from the writer cursor, REX is the last prefix and FWAIT precedes the overrides on every path, register ids are not compared before FIXUP_GPB, packed ModRM fields are not tested after a merge, generated tables regenerate identically (thorough).; invalid-marker entries of the 16-bit addressing tables are tested before use; operands are reinterpreted only as the kind the dominating test established; the displacement-less ModRM form excludes BP/R13 (16-bit: the disp16 slot), a path that knows the operand has an index register reads its scale before the instruction is closed, 64-bit immediates are range-tested unsigned or on both sides, and the validator consults the EVEX-capability flags the register allocator uses before it can accept vector registers 16..31 Does not decide ModRM/immediate arithmetic over operand values.",
         "design_ref": "DESIGN.md section 3 / C01",
         "note": _TB,
         "technique": "constant-evaluated table dump (clang APValue) compared with independent oracle tables and the ISA database; switch-coverage lint",
     },
     "C02": {
-        "text": "Decides: every register id packed into an AArch64 instruction word is range-validated on all CFG paths before the word is emitted (143 sites, validators derived from callee bodies); every encoding class is dispatched and every row indexes inside the data array its class reads; register field positions, stored opcode constants (806) and register-run checks agree with db/isa_aarch64.json; every 64-bit immediate is range-tested on all paths before it is narrowed to 32 bits (21 sites) and condition-code immediates are bounded by the CondCode enum; lossy operations on 64-bit immediates (masking, templated narrowing) need a dominating bound; the overloads of the register-id validators accept identical id sets (finite predicate folding); assembler lookup tables equal an architectural oracle; general-purpose register widths allowed per row equal the database notation (379 operand positions).; operands are reinterpreted only as the kind the dominating test established; invalid-marker table entries are tested before they are packed; a memory index id is packed only after its register type was tested; the bound of a shift type fits the architectural class of every row of the case; sibling branches range-test the same shape expression alike; the vector arrangements each row's kVO class accepts exist in the database; FP scalar/vector shapes accepted by pick_fp_opcode and the shapes stored in exact-signature rows exist in the database; an offset scaled by a data-dependent shift is packed only after a lossless test with the same shift; every packed operand's register type was looked at before the word is emitted; a memory operand's base id becomes a label id only under has_base_label() Does not decide immediate/offset field arithmetic.",
+        "text": "Decides: every register id packed into an AArch64 instruction word is range-validated on all CFG paths before the word is emitted (143 sites, validators derived from callee bodies); every encoding class is dispatched and every row indexes inside the data array its class reads; register field positions, stored opcode constants (806) and register-run checks agree with db/isa_aarch64.json; every 64-bit immediate is range-tested on all paths before it is narrowed to 32 bits (21 sites) and condition-code immediates are bounded by the CondCode enum; lossy operations on 64-bit immediates (masking, templated narrowing) need a dominating bound; the overloads of the register-id validators accept identical id sets (finite predicate folding); assembler lookup tables equal an architectural oracle; general-purpose register widths allowed per row equal the database notation (379 operand positions).; operands are reinterpreted only as the kind the dominating test established; invalid-marker table entries are tested before they are packed; a memory index id is packed only after its register type was tested; the bound of a shift type fits the architectural class of every row of the case; sibling branches range-test the same shape expression alike; the vector arrangements each row's kVO class accepts exist in the database; FP scalar/vector shapes accepted by pick_fp_opcode and the shapes stored in exact-signature rows exist in the database; an offset scaled by a data-dependent shift is packed only after a lossless test with the same shift; every packed operand's register type was looked at before the word is emitted; a memory operand's base id becomes a label id only under has_base_label(); register width and element size are related on every accepting path of the hand-written FP cases (no .1D); a register index is packed only after the operand's write-back mode was read Does not decide immediate/offset field arithmetic.",
         "design_ref": "DESIGN.md section 3 / C02",
         "note": _TB,
         "technique": "must/may forward dataflow over clang CFG (validate-before-emit), switch coverage, table-vs-database agreement",
     },
     "C03": {
-        "text": "Decides bookkeeping/ordering clauses: label ids validated on the taken edge before label entries are dereferenced; the unresolved counter is written only in its inverse-pair forms and subtracted on every exit that ran the fixup iterator; one iterator advance per iteration and release only after a successful patch; survivor splice; OffsetFormat literals satisfy the encoder's preconditions; pc-relative addends account for trailing immediates and use the writer cursor; a label relocation takes offset and section from the same label entry; the displacement codec never narrows a 64-bit displacement without a range or round-trip test.; a reference from another section takes its target section from the label; a fixup list is attached to a label entry only on the edge where it is not bound; bind_label resolves fix-ups against the bound section; a label distance reaches a narrower field only under a dominating range predicate; a64: a memory operand's base id becomes a label id only under has_base_label() Does not decide displacement values.",
+        "text": "Decides bookkeeping/ordering clauses: label ids validated on the taken edge before label entries are dereferenced; the unresolved counter is written only in its inverse-pair forms and subtracted on every exit that ran the fixup iterator; one iterator advance per iteration and release only after a successful patch; survivor splice; OffsetFormat literals satisfy the encoder's preconditions; pc-relative addends account for trailing immediates and use the writer cursor; a label relocation takes offset and section from the same label entry; the displacement codec never narrows a 64-bit displacement without a range or round-trip test.; a reference from another section takes its target section from the label; a fixup list is attached to a label entry only on the edge where it is not bound; bind_label resolves fix-ups against the bound section; a label distance reaches a narrower field only under a dominating range predicate; a64: a memory operand's base id becomes a label id only under has_base_label(); (in-place modulo-2^32 narrowing of label arithmetic is refused, is_32bit() counts as a range guard); a full-width mask of a signed 64-bit displacement is a narrowing Does not decide displacement values.",
         "design_ref": "DESIGN.md section 3 / C03",
         "note": _TB,
         "technique": "dominance / must-pass-through dataflow on CFG, inverse-pair structural rule, constant-argument checks",
     },
     "C04": {
-        "text": "Decides: RelocType/expression dispatch is complete and defaults to an error; every buffer write of relocate_to_base is dominated by its range/null tests; the .addrtab rewrite recognises exactly call/jmp rel32 and replaces them with FF /2, FF /4 (also against the ISA database); relocation entries are completely initialised with section ids of the right provenance; pc-relative displacements account for trailing immediates; payload and target section come from one label entry, a stored payload is read before it is overwritten, every address-after-field sum in relocate_to_base contains section offset and source offset.; JitRuntime relocates to the executable address; bytes stored into reserved buffer capacity are covered by a `_size` assignment on every path to a successful return Does not decide relocation arithmetic.",
+        "text": "Decides: RelocType/expression dispatch is complete and defaults to an error; every buffer write of relocate_to_base is dominated by its range/null tests; the .addrtab rewrite recognises exactly call/jmp rel32 and replaces them with FF /2, FF /4 (also against the ISA database); relocation entries are completely initialised with section ids of the right provenance; pc-relative displacements account for trailing immediates; payload and target section come from one label entry, a stored payload is read before it is overwritten, every address-after-field sum in relocate_to_base contains section offset and source offset.; JitRuntime relocates to the executable address; bytes stored into reserved buffer capacity are covered by a `_size` assignment on every path to a successful return; a relocation's source offset is the emitter's offset() in every sibling, a pc-relative value is computed in place only under is_absolute_location() Does not decide relocation arithmetic.",
         "design_ref": "DESIGN.md section 3 / C04",
         "note": _TB,
         "technique": "switch coverage, must-assign dataflow after new_reloc_entry, dominance of bounds tests, constant agreement with tables",
@@ -48,7 +48,7 @@ CLAIMS = {
     "C09": {
         "text": "Decides accounting/guard/flag clauses C09.a-e: statistics updates come in inverse pairs, release/shrink/query agree on the guards "
                 "applied to a looked-up address, is_initialized distinguishes the null implementation, empty-block policy writes, roll-back in "
-                "new_block, every site that sets the empty flag rebuilds the same free-space cache fields, area/byte conversions use the pool's granularity., a block that is re-inserted into the tree has its links cleared, the emptiness test follows every path that lowers the used area, the secure fill walks the used ranges, release/shrink accept only the start of a span Does not decide disjointness/alignment over histories.",
+                "new_block, every site that sets the empty flag rebuilds the same free-space cache fields, area/byte conversions use the pool's granularity., a block that is re-inserted into the tree has its links cleared, the emptiness test follows every path that lowers the used area, the secure fill walks the used ranges, release/shrink accept only the start of a span, query included; bound tests do not add two caller-controlled sizes before bounding each; the block-size computation counts the initial padding on every path; an internal shrink is never asked for size 0; release/shrink widen both ends of the block's search window Does not decide disjointness/alignment over histories.",
         "design_ref": "DESIGN.md section 3 / C09",
         "note": _TB,
         "technique": "inverse-pair and sibling-guard structural rules, constant evaluation, acquire/release pairing on CFG",
@@ -77,13 +77,13 @@ CLAIMS = {
     "C13": {
         "text": "Decides clauses C13.a-c: signature/name tables regenerate identically, the packed name index satisfies the binary-search "
                 "preconditions for every id (exhaustive), the validation hook precedes any buffer commit and its failure reaches the error exit; the a64 name scan decodes every id; the x86 validator "
-                "adds the vm flags that match the index register type.; AArch64 vector arrangements accepted per row exist in the database and the database's arrangement lists agree with the Q bit of their opcode; the x86 validator rejects {z} with a memory destination; FP and exact-signature shapes as in C02; each x86 emitter selects the validator by mode inside on_attach; the validator gives a vector-index operand no plain memory flag, compares implicit registers for every operand class that has them, and its per-mode base/index register sets equal the architecture Does not decide per-form acceptance agreement.",
+                "adds the vm flags that match the index register type.; AArch64 vector arrangements accepted per row exist in the database and the database's arrangement lists agree with the Q bit of their opcode; the x86 validator rejects {z} with a memory destination; FP and exact-signature shapes as in C02; each x86 emitter selects the validator by mode inside on_attach; the validator gives a vector-index operand no plain memory flag, compares implicit registers for every operand class that has them, and its per-mode base/index register sets equal the architecture; the validator reads every EVEX-capability flag the register allocator branches on where kInvalidPhysId is still reachable Does not decide per-form acceptance agreement.",
         "design_ref": "DESIGN.md section 3 / C13",
         "note": _TB,
         "technique": "regeneration diff, exhaustive decode of dumped name tables, CFG dominance",
     },
     "C14": {
-        "text": "Decides guard/atomicity clauses: label ids validated before dereference; AArch64 register ids validated before packing; emit functions (x86, a64, Builder) reset one-shot state on every exit, commit bytes only on success, never reach an input-validation exit after a fixup/relocation/address-table commit; the shared failure exit resets state before the handler can throw; AArch64 64-bit immediates are range-tested before narrowing and condition codes are bounded by the enum; label-count comparisons are strict; every failing return of an emitter interface function passes through report_error() (flow-sensitive), one-shot state is reset before the handler runs, a label is validated before the first commit of a multi-step function; constant-table subscripts are bounded for arbitrary operands (38 subscripts, upper-bound evaluator) and the opcode MM field stays inside its table; the CodeHolder is used only after `_code` was tested.; Builder::bind and the other registry-node adders link a node only when it is known not to be part of the list; operand reinterpretation, invalid-marker tables, memory index type, shift-type class and sibling range tests as in C02; lossless-shift, register-type and FP-shape rules as in C02; every non-noexcept Builder/Compiler API function reports its errors Does not decide that every invalid operand kind is rejected, nor operand-indexed table subscripts.",
+        "text": "Decides guard/atomicity clauses: label ids validated before dereference; AArch64 register ids validated before packing; emit functions (x86, a64, Builder) reset one-shot state on every exit, commit bytes only on success, never reach an input-validation exit after a fixup/relocation/address-table commit; the shared failure exit resets state before the handler can throw; AArch64 64-bit immediates are range-tested before narrowing and condition codes are bounded by the enum; label-count comparisons are strict; every failing return of an emitter interface function passes through report_error() (flow-sensitive), one-shot state is reset before the handler runs, a label is validated before the first commit of a multi-step function; constant-table subscripts are bounded for arbitrary operands (38 subscripts, upper-bound evaluator) and the opcode MM field stays inside its table; the CodeHolder is used only after `_code` was tested.; Builder::bind and the other registry-node adders link a node only when it is known not to be part of the list; operand reinterpretation, invalid-marker tables, memory index type, shift-type class and sibling range tests as in C02; lossless-shift, register-type and FP-shape rules as in C02; every non-noexcept Builder/Compiler API function reports its errors; Compiler functions grab the one-shot state before every exit; the a64 id range / condition tests read the raw id; BaseEmitter dispatchers that forward to _emit() fail through reset_state() + report_error(); 64-bit immediates are range-tested unsigned or on both sides; no label is registered before the arguments were validated; index write-back mode as in C02 Does not decide that every invalid operand kind is rejected, nor operand-indexed table subscripts.",
         "design_ref": "DESIGN.md section 3 / C14",
         "note": _TB,
         "technique": "must-set / reachability dataflow on clang CFG, sibling-guard comparison, index-range vs table-length check",
@@ -95,7 +95,7 @@ CLAIMS = {
         "technique": "null-tested must-analysis, discarded-result lint with frozen exception table, dominance, free-escape typestate",
     },
     "C16": {
-        "text": "Decides: every arena-backed container, pointer and field mutated after construction of CodeHolder, BaseEmitter, BaseAssembler, BaseBuilder, BaseCompiler, BaseRAPass and ConstPool is reset in the closure of each reset entry point, or exempt with a reason (126 obligations); array members are reset element-wise, ArenaHashBase::reset covers every field; every override of on_attach/on_detach/on_reinit calls the handler it overrides on every path; no function of the code-generation units orders object pointers by address.; flag accessors of Section/RelocEntry-like records fold to set/clear/test on a value grid; a new Section is completely initialised, including all bytes of its name Does not decide byte equality of recycled vs fresh generation nor address independence.",
+        "text": "Decides: every arena-backed container, pointer and field mutated after construction of CodeHolder, BaseEmitter, BaseAssembler, BaseBuilder, BaseCompiler, BaseRAPass and ConstPool is reset in the closure of each reset entry point, or exempt with a reason (126 obligations); array members are reset element-wise, ArenaHashBase::reset covers every field; every override of on_attach/on_detach/on_reinit calls the handler it overrides on every path; no function of the code-generation units orders object pointers by address.; flag accessors of Section/RelocEntry-like records fold to set/clear/test on a value grid; a new Section is completely initialised, including all bytes of its name; the embedded .text section is completely re-initialised by init()/reinit() and reinit() restores the initial base address; shared flag words are only changed bitwise; a temporarily replaced error handler / logger is put back with its ownership (own vs inherited) preserved Does not decide byte equality of recycled vs fresh generation nor address independence.",
         "design_ref": "DESIGN.md section 3 / C16",
         "note": _TB,
         "technique": "reset-closure coverage over class fields (call graph + field writes), must-call rule, pointer-compare lint",
